@@ -10,6 +10,7 @@ import os
 import subprocess
 import sys
 import time
+os.environ['VERIF_EVIDENCE'] = 'build/seed_evidence'
 
 ROOT = os.path.dirname(os.path.dirname(os.path.abspath(__file__)))
 
